@@ -192,6 +192,7 @@ def snapshot(o):
     d["cache_pdep"] = tuple(sorted((k, repr(v)) for k, v in o.__dict__.items() if k.startswith("_traits_cache_pdep")))
     d["sup"] = type(o.__dict__.get("sup")).__name__
     d["supd"] = type(o.__dict__.get("supd")).__name__
+    d["sync-records"] = tuple(sorted((k_, len(v_)) for k_, v_ in (o.__dict__.get("__sync_trait__") or {}).items() if k_ != ""))
     p = o.__dict__["_partner"]
     d["partner.e"] = p.__dict__.get("e", 0)
     d["partner.le"] = list(p.__dict__.get("le", []))
@@ -252,6 +253,9 @@ OPS = {
     "sync scalar": lambda o: setattr(o, "t", 4),
     "sync scalar bad": lambda o: setattr(o, "t", 3),
     "sync list": lambda o: o.tl.append(6),
+    # a NEW synchronisation whose initial copy goes through the new partner's validator (the partner stays alive)
+    "sync new partner": lambda o: o.sync_trait("e", o.__dict__.setdefault("_extra", Partner()), "e", mutual=False),
+    "sync new partner mutual": lambda o: o.sync_trait("e", o.__dict__.setdefault("_extra", Partner()), "e"),
     "trait_set": lambda o: o.trait_set(e=8, base=3),
 }
 PREFIX = {
